@@ -23,7 +23,7 @@ from ..core import Check, jdigest, result_template
 from ..oracles import kepler
 from ..run import cleanup, fmt_ts, history_digest, parse_ts
 from .C03 import limits
-from .common import drive, generic_shrinks, raised_in_harness, time_info, variant
+from .common import drive, generic_shrinks, over, raised_in_harness, time_info, variant
 
 
 def thrust_acc(ev: dict, x: np.ndarray) -> np.ndarray:
@@ -171,7 +171,7 @@ class C15(Check):
                 lp, lv = limits(k * step, got)
                 dp, dv = float(np.linalg.norm(got[:3] - ref[k][:3])), float(np.linalg.norm(got[3:] - ref[k][3:]))
                 worst = max(worst, dp / lp, dv / lv)
-                if dp > lp or dv > lv:
+                if over(dp, lp) or over(dv, lv):
                     # how long did the engine really burn?  (ECI burns: delta-v / |a|)
                     extra = ""
                     if ev["event_type"] == "finite_burn" and ev["thrust_frame"] == "eci":
